@@ -14,9 +14,10 @@ import (
 // ---- scripted io.Reader -------------------------------------------------
 
 type chunk struct {
-	data []byte
-	eof  bool
-	fail bool
+	data    []byte
+	eof     bool
+	fail    bool
+	withErr bool // the Read that hands out the last of data also reports an error (not EOF), once
 }
 
 type scriptReader struct {
@@ -25,6 +26,7 @@ type scriptReader struct {
 	calls    int
 	mark     int // consumed at the start of the current message
 	callsAt  int // Read calls made once 28 bytes of the current message were out
+	faulted  bool // a Read of the current message reported an error together with bytes
 }
 
 var errScripted = errors.New("scripted failure")
@@ -42,8 +44,12 @@ func (r *scriptReader) Read(p []byte) (int, error) {
 		return 0, errScripted
 	}
 	if len(c.data) == 0 {
-		eof := c.eof
+		eof, withErr := c.eof, c.withErr
 		r.chunks = r.chunks[1:]
+		if withErr {
+			r.faulted = true
+			return 0, errScripted
+		}
 		if eof {
 			r.chunks = nil
 			return 0, io.EOF
@@ -55,7 +61,12 @@ func (r *scriptReader) Read(p []byte) (int, error) {
 	r.consumed += n
 	if len(c.data) == 0 {
 		eof := c.eof
+		withErr := c.withErr
 		r.chunks = r.chunks[1:]
+		if withErr {
+			r.faulted = true
+			return n, errScripted
+		}
 		if eof {
 			r.chunks = nil
 			return n, io.EOF
@@ -75,6 +86,8 @@ func parseChunks(ws []string) []chunk {
 			cs = append(cs, chunk{data: unhx(w[2:])})
 		case strings.HasPrefix(w, "e:"):
 			cs = append(cs, chunk{data: unhx(w[2:]), eof: true})
+		case strings.HasPrefix(w, "x:"):
+			cs = append(cs, chunk{data: unhx(w[2:]), withErr: true})
 		default:
 			panic("bad chunk " + w)
 		}
@@ -88,14 +101,26 @@ func fmtHeader(h qnet.Header, payload []byte) string {
 }
 
 // msg.read <k> <chunks…> : read up to k messages with Message.Read.
-func execMsgRead(a []string) string {
+func execMsgRead(a []string) string { return msgRead(a, false) }
+
+// msg.reread <k> <chunks…> : the same with one Message value that every Read fills again (what a
+// reader loop with a single variable does): what was read before must not show through
+func execMsgReread(a []string) string { return msgRead(a, true) }
+
+func msgRead(a []string, reuse bool) string {
 	k, _ := strconv.Atoi(a[0])
 	r := &scriptReader{chunks: parseChunks(a[1:])}
 	var sb strings.Builder
+	var shared qnet.Message
 	for i := 0; i < k; i++ {
-		var m qnet.Message
+		var fresh qnet.Message
+		m := &fresh
+		if reuse {
+			m = &shared
+		}
 		r.mark = r.consumed
 		r.callsAt = 0
+		r.faulted = false
 		err := m.Read(r)
 		c := r.consumed - r.mark
 		if err == nil {
@@ -105,7 +130,7 @@ func execMsgRead(a []string) string {
 		switch {
 		case err == io.EOF:
 			sb.WriteString("eof")
-		case c == 28 && r.callsAt == 0:
+		case c == 28 && r.callsAt == 0 && !r.faulted:
 			sb.WriteString("refused")
 		default:
 			sb.WriteString("err")
@@ -198,6 +223,7 @@ func execMsgLimit(a []string) string {
 func init() {
 	executors["msg.limit"] = execMsgLimit
 	executors["msg.read"] = execMsgRead
+	executors["msg.reread"] = execMsgReread
 	executors["msg.write"] = execMsgWrite
 	runners["C01"] = runC01
 }
@@ -439,11 +465,19 @@ func genReadCase(r *Rand, tier string, o *Out) {
 		o.Count("eof:with-data")
 	}
 	// malformed streams: only for the model/implementation correspondence
-	if r.Chance(12) && len(chunks) > 0 {
+	if r.Chance(16) && len(chunks) > 0 {
 		class = "X"
 		pos := r.Intn(len(chunks) + 1)
 		ins := "f"
-		switch r.Intn(3) {
+		switch r.Intn(5) {
+		case 3, 4:
+			// a read error that comes once, together with bytes; the stream goes on behind it
+			pos = r.Intn(len(chunks))
+			if strings.HasPrefix(chunks[pos], "d:") {
+				chunks[pos] = "x:" + chunks[pos][2:]
+				o.Count("stream:error-once-with-bytes")
+			}
+			ins = ""
 		case 0:
 			ins = "d:-" // (0, nil)
 			o.Count("stream:zero-read")
@@ -469,7 +503,12 @@ func genReadCase(r *Rand, tier string, o *Out) {
 			class = "X"
 		}
 	}
-	o.Do(class, fmt.Sprintf("msg.read %d %s", reads, strings.Join(chunks, " ")), true)
+	op := "msg.read"
+	if r.Chance(40) {
+		op = "msg.reread"
+		o.Count("read:one-message-value-reused")
+	}
+	o.Do(class, fmt.Sprintf("%s %d %s", op, reads, strings.Join(chunks, " ")), true)
 }
 
 func genWriteCase(r *Rand, tier string, o *Out) {
